@@ -107,6 +107,8 @@ let handle_record (r : string) : issue list =
              let rows_model = iz (if avx2 then stripe_rows (z l) else gstripe_rows (z 32) (z l)) in
              if oi 0 <> rows_model then add [Guard (Printf.sprintf "stripe:rows-%d-model-%d(%s)" (oi 0) rows_model params)];
              if oi 2 <> 0 then add [Guard "stripe:wrap-not-reset"];
+             if List.length outs > 3 && oi 3 >= 0 then
+               add [Invariant (Printf.sprintf "write-past-the-owned-rows(inside-capacity):stripe-damaged-canary-at-byte-%d(%s)" (oi 3) params)];
              let cap b = if b = 0 then gi "ecap" else oi 1 * st in
              if avx2 then add (check "stripe_avx2" (ext_stripe (z l) (z st)) balign_stripe cap (fp_stripe_avx2 (z l) (z st)))
              else add (check "stripe_generic" (ext_gstripe (z 32) (z l) (z st)) balign_stripe cap (fp_stripe_generic (z 32) (z l) (z st)))
@@ -147,6 +149,8 @@ let handle_record (r : string) : issue list =
                | 2 -> gi "pcap" * gi "pst" * es
                | 1 -> oi 1 * gi "dst" * es
                | _ -> 0 in
+             if (not panicked) && List.length outs > 2 && oi 2 >= 0 then
+               add [Invariant (Printf.sprintf "write-past-the-owned-rows(inside-capacity):%s-damaged-canary-at-byte-%d(%s)" name (oi 2) params)];
              match guard_cmp g ~rows_entered:(gi "b" - gi "a") ~observed_rows:(oi 0) with
              | Some accs -> add (check kname (ext_score (z es) p) balign_mat_src cap accs)
              | None -> ()
@@ -213,7 +217,75 @@ let handle_record (r : string) : issue list =
       !issues
   | _ -> if r = "-" then [] else [Guard ("bad-record:" ^ r)]
 
+(* ---------- mode `srcfp`: source-derived footprints (translate/footprint_exec.py) ----------
+   line: <id> kernel=<name> k=v ... accs=<buf>:<off>:<width>:<r|w>:<align>,...
+   The access list the Python interpreter derived from the kernel's SOURCE for these parameters is
+   compared (as a set, accesses of width >= 4) with the list of the Coq footprint model, and checked
+   by the extracted all_ok against the extents of the model. *)
+let srcfp_line (line : string) : string =
+  let toks = String.split_on_char ' ' line in
+  let id = List.hd toks in
+  let f = List.map kv (List.tl toks) in
+  let gs k = try List.assoc k f with Not_found -> "" in
+  let gi k = try int_of_string (List.assoc k f) with _ -> 0 in
+  let parse_acc t = match String.split_on_char ':' t with
+    | [b; o; w; rw; al] -> (int_of_string b, int_of_string o, int_of_string w, rw = "w", int_of_string al)
+    | _ -> failwith ("bad access " ^ t) in
+  let src = if gs "accs" = "-" then [] else List.map parse_acc (split ',' (gs "accs")) in
+  let tup (a : access) = (int_of_nat a.abuf, iz a.aoff, iz a.awidth, a.awrite, iz a.aalign) in
+  let untup (b, o, w, wrt, al) = { abuf = nat_of_int b; aoff = z o; awidth = z w; awrite = wrt; aalign = z al } in
+  let show (b, o, w, wrt, al) = Printf.sprintf "buf%d+%d..+%d%s(align%d)" b o w (if wrt then "w" else "r") al in
+  let kernel = gs "kernel" in
+  let es = match kernel with "score_u8_avx2_shuffle" | "argmax_u8_avx2" | "max_u8_avx2" -> 1 | _ -> 4 in
+  let c = if gs "C" = "" then 32 else gi "C" in
+  let p = { pK = z (gi "K"); pL = z (gi "L"); pSR = z (gi "SR"); pwrap = z (gi "wrap"); pM = z (gi "M");
+            pa = z (gi "a"); pb = z (gi "b"); psst = z (gi "sst"); ppst = z (gi "pst"); pdst = z (gi "dst") } in
+  let rows = z (gi "rows") and st = z (gi "st") in
+  let model, ext, balign =
+    match kernel with
+    | "encode_into_avx2" -> fp_encode_into_avx2 (z (gi "L")), ext_encode (z (gi "L")) (z (gi "L")), balign_slices
+    | "encode_into_sse2" -> fp_encode_into_sse2 (z (gi "L")), ext_encode (z (gi "L")) (z (gi "L")), balign_slices
+    | "stripe_avx2" -> fp_stripe_avx2 (z (gi "L")) (z (gi "ost")), ext_stripe (z (gi "L")) (z (gi "ost")), balign_stripe
+    | "score_f32_avx2_permute" -> fp_score_f32_avx2_permute p, ext_score (z 4) p, balign_mat_src
+    | "score_f32_avx2_gather" -> fp_score_f32_avx2_gather p, ext_score (z 4) p, balign_mat_src
+    | "score_u8_avx2_shuffle" -> fp_score_u8_avx2_shuffle p, ext_score (z 1) p, balign_mat_src
+    | "score_sse2" -> fp_score_sse2 (z c) p, ext_score (z 4) p, balign_mat_src
+    | "argmax_f32_avx2" -> fp_argmax_f32_avx2 rows st, ext_max (z 4) rows st (z 128), balign_mat_src
+    | "max_f32_avx2" -> fp_max_f32_avx2 rows st, ext_max (z 4) rows st (z 32), balign_mat_src
+    | "argmax_u8_avx2" -> fp_argmax_u8_avx2 rows st, ext_max (z 1) rows st (z 64), balign_mat_src
+    | "max_u8_avx2" -> fp_max_u8_avx2 rows st, ext_max (z 1) rows st (z 32), balign_mat_src
+    | "argmax_sse2" -> fp_argmax_sse2 (z c) rows st, ext_max (z 4) rows st (z (4 * c)), balign_mat_src
+    | k -> failwith ("unknown kernel " ^ k) in
+  ignore es;
+  let wide = List.filter (fun (_, _, w, _, _) -> w >= 4) in
+  let m = List.sort_uniq compare (wide (List.map tup model)) in
+  let sset = List.sort_uniq compare (wide src) in
+  let rec first_diff a b = match a, b with
+    | [], [] -> None
+    | x :: _, [] -> Some ("model-only:" ^ show x)
+    | [], y :: _ -> Some ("source-only:" ^ show y)
+    | x :: a', y :: b' -> if x = y then first_diff a' b'
+                          else if compare x y < 0 then Some ("model-only:" ^ show x) else Some ("source-only:" ^ show y) in
+  let src_accs = List.map untup src in
+  if not (all_ok ext balign src_accs) then
+    Printf.sprintf "%s DIFF srcfp:%s:source-derived-access-fails-the-checker:%s" id kernel
+      (match first_bad ext balign src_accs with Some a -> show_acc a | None -> "?")
+  else match first_diff m sset with
+    | None -> Printf.sprintf "%s OK %d" id (List.length sset)
+    | Some d -> Printf.sprintf "%s DIFF srcfp:%s:%s(model-%d-accesses,source-%d)" id kernel d (List.length m) (List.length sset)
+
 let () =
+  if Array.length Sys.argv > 1 && Sys.argv.(1) = "srcfp" then begin
+    (try
+      while true do
+        let line = input_line stdin in
+        if String.length line > 0 && line.[0] <> '#' then
+          print_endline (try srcfp_line line with e ->
+            (List.hd (String.split_on_char ' ' line)) ^ " DIFF srcfp:driver-exception:" ^ Printexc.to_string e)
+      done
+    with End_of_file -> ());
+    exit 0
+  end;
   try
     while true do
       let line = input_line stdin in
@@ -222,12 +294,15 @@ let () =
           match Str.bounded_split (Str.regexp_string " => ") line 2 with
           | [a; b] -> (a, b) | [a] -> (a, "") | _ -> ("?", "") in
         let id = List.hd (String.split_on_char ' ' inp) in
+        let has sub = try ignore (Str.search_forward (Str.regexp_string sub) inp 0); true with Not_found -> false in
+        if has " kernel=" && has " accs=" then print_endline (srcfp_line inp) else
         let (verd, recs) =
           match Str.bounded_split (Str.regexp_string " :: ") obs 2 with
           | [a; b] -> (a, b) | [a] -> (a, "-") | _ -> ("", "-") in
         let vf = List.map kv (split ' ' verd) in
         let asan = try List.assoc "asan" vf with Not_found -> "NOASAN" in
         let dbg = try List.assoc "dbg" vf with Not_found -> "?" in
+        let rel = try List.assoc "rel" vf with Not_found -> "-" in
         let issues =
           try List.concat_map handle_record (split ';' recs)
           with e -> [Guard ("driver-exception:" ^ Printexc.to_string e)] in
@@ -237,12 +312,12 @@ let () =
         let guards = List.filter_map (function Guard d -> Some d | _ -> None) issues in
         let model_txt = match model_bad with
           | [] -> "model=clean" | (d, _) :: _ -> "model-predicts=" ^ d in
-        if starts "ASAN" asan || starts "CRASH" asan || starts "CRASH" dbg then
-          Printf.printf "%s PROPFAIL memory-error asan=%s dbg=%s %s%s\n" id asan dbg model_txt
+        if starts "ASAN" asan || starts "CRASH" asan || starts "CRASH" dbg || starts "ASAN" rel || starts "CRASH" rel then
+          Printf.printf "%s PROPFAIL memory-error asan=%s rel=%s dbg=%s %s%s\n" id asan rel dbg model_txt
             (match guards with [] -> "" | g :: _ -> " guard=" ^ g)
         else if invariants <> [] then
           Printf.printf "%s PROPFAIL %s\n" id (List.hd invariants)
-        else if asan = "NOASAN" then
+        else if asan = "NOASAN" || rel = "NOASAN" then
           Printf.printf "%s DIFF no-sanitizer-verdict(ASan-build-missing)\n" id
         else if List.exists snd model_bad then
           Printf.printf "%s DIFF model-predicts-access-past-the-allocation-sanitizer-clean:%s\n" id
